@@ -96,10 +96,17 @@ Scenario ==
                                          <<IF D = 3 THEN Arr(<<RefObj(UOther \o DefRef(K_t))>>) ELSE RefObj(UOther \o DefRef(K_t))>>
                                            \o TRef(DefRef(n)).v \o <<Defs(n)>>),
                               more |-> <<[u |-> UOther, doc |-> Obj1(K_definitions, JObj(<<K_t, n>>, <<Obj1(K_type, Str(T_null)), EmptyObj>>))]>>]
+    \* the OTHER drafts' id keyword on the way to the reference must NOT change the base (C10, second half)
+    [] arr = "otherid"    -> [S |-> JObj(<<IdKw(D)>> \o Wrapper(EmptyObj).k,
+                                         <<Str(UDirRoot)>> \o Wrapper(WithFirst(TRef(RelDefs \o DefRef(n)),
+                                                                               IF D <= 4 THEN K_d_id ELSE K_id, Str(UNested))).v),
+                              more |-> <<[u |-> UDirDefs, doc |-> Obj1(K_definitions, Defs(n))]>>]
+    \* recursion through the root ("#"), only at positions below an instance-consuming keyword (well-founded)
+    [] arr = "recursive"  -> [S |-> TRef(<<35>>), more |-> <<>>]
     [] arr = "urn"        -> [S |-> WithFirst(WithLast(TRef(DefRef(n)), K_definitions, Defs(n)), IdKw(D), Str(UUrn)), more |-> <<>>]
 
 AllArrs == {"local", "rootid", "rootidhash", "absref", "relid", "storeabs", "storerel", "storeownid", "chain",
-            "arrayelem", "nestedabs", "nestedrel", "mixed", "urn"}
+            "arrayelem", "nestedabs", "nestedrel", "mixed", "otherid", "recursive", "urn"}
 
 QuickNames == {1, 2, 3, 5, 6, 8, 10, 13}
 ThoroughNames == DOMAIN AllNames
@@ -110,6 +117,8 @@ ChoosePos  == stage = 1 /\ pos' \in { p \in SubschemaPaths(D, T) : Extractable(p
 ChooseName == stage = 2 /\ name' \in { AllNames[i] : i \in Names } /\ stage' = 3 /\ UNCHANGED <<bi, pos, arr>>
 ChooseArr  == /\ stage = 3 /\ arr' \in Arrs /\ stage' = 4 /\ UNCHANGED <<bi, pos, name>>
               /\ (arr' = "mixed" => ~HasKey(T, IF D = 3 THEN K_disallow ELSE K_not))      \* keys of an object are unique
+              /\ (arr' = "recursive" => pos # <<>> /\ pos[1].s \in {K_properties, K_patternProperties, K_additionalProperties,
+                                                                     K_items, K_additionalItems, K_contains})
 Next == ChooseBase \/ ChoosePos \/ ChooseName \/ ChooseArr
 Spec == Init /\ [][Next]_vars
 
@@ -118,7 +127,8 @@ NI == Len(RInstances)
 
 Transparent ==
   stage = 4 =>
-    LET sc == Scenario  env == REnv(sc)  inl == Inline(D, env, sc.S, FMAX) IN
+    LET sc == Scenario  env == REnv(sc)
+        inl == IF arr = "recursive" THEN [ok |-> TRUE, v |-> InlineTrunc(D, env, sc.S, 4)] ELSE Inline(D, env, sc.S, FMAX) IN
     /\ inl.ok
     /\ \A i \in 1 .. NI :
          LET a == Run(D, env, sc.S, RInstances[i])
@@ -126,7 +136,7 @@ Transparent ==
          IN  a.exc = {} /\ a.ood = {} /\ LocBag(a.errs, b.errs)
 \* extraction preserves meaning: the scenario behaves as the original reference-free schema
 SameAsOriginal ==
-  (stage = 4 /\ arr # "mixed") =>
+  (stage = 4 /\ arr \notin {"mixed", "recursive"}) =>
     LET sc == Scenario  env == REnv(sc) IN
     \A i \in 1 .. NI : LocBag(Run(D, env, sc.S, RInstances[i]).errs, Run(D, EnvFor(D, T, UPats), T, RInstances[i]).errs)
 
@@ -135,7 +145,8 @@ Plain(e) == [kw |-> e.kw, ip |-> e.ip, sp |-> e.sp, tag |-> e.tag, ctx |-> [j \i
 ASSUME PrintT(ToJson([instances |-> RInstances]))
 ExportInv ==
   stage = 4 =>
-    LET sc == Scenario  env == REnv(sc)  inl == Inline(D, env, sc.S, FMAX) IN
+    LET sc == Scenario  env == REnv(sc)
+        inl == IF arr = "recursive" THEN [ok |-> TRUE, v |-> InlineTrunc(D, env, sc.S, 4)] ELSE Inline(D, env, sc.S, FMAX) IN
     PrintT(ToJson([S |-> sc.S, more |-> sc.more, arr |-> arr, name |-> name, inl |-> inl.v, T |-> T,
                    e |-> [i \in 1 .. NI |-> LET r == Run(D, env, sc.S, RInstances[i]) IN
                             [j \in DOMAIN r.errs |-> Plain(r.errs[j])]]]))
